@@ -154,4 +154,301 @@ theorem vcc_eq_refs (lang : Lang) (t : Tree) (start : Length) (ps : Option Nat) 
   | nil => simp [Tree.kids, enumChildren, enumKids]
   | cons a b => simpa [Tree.kids] using hc
 
+theorem getElem?_of_drop {α : Type} (l : List α) (k : Nat) (c : α) (rest : List α) (h : l.drop k = c :: rest) :
+    l[k]? = some c ∧ l.drop (k + 1) = rest := by
+  have h1 : l[k]? = some c := by
+    have := congrArg List.head? h
+    simpa [List.head?_drop] using this
+  refine ⟨h1, ?_⟩
+  have := drop_eq_cons l k c h1
+  rw [this] at h
+  exact (List.cons.inj h).2
+
+/-- **cfcIdeal_flat.**  For every language, goal, stack `top :: rest` whose top subtree is summarized and
+parser-shaped: the plain search `cfcIdeal` from that stack returns the index (counted from `idx`) and the entry
+(subtree, slot id, position) of the FIRST element of `enumRefs lang top.t top.pos` — the visible children of the
+node as `TSNode`s — whose end lies after the goal in bytes and in row/column order; nothing iff there is none. -/
+theorem cfcIdeal_flat (lang : Lang) (gb : Nat) (gp : TSPoint) : ∀ (f : Nat) (top : Entry) (rest : List Entry) (idx : Nat) (ps : Option Nat),
+    Summarized lang top.t → shapeOK ps top.t = true → top.t.size ≤ f →
+    (cfcIdeal lang gb gp f (top :: rest) idx).map projE =
+      ((enumRefs lang top.t top.pos).findIdx? (fun r => goalAfter gb gp r.endLen)).map (pickR (enumRefs lang top.t top.pos) idx)
+  | 0, top, _, _, _, _, _, hsz => by have := tree_size_pos top.t; omega
+  | f + 1, top, rest, idx, ps, hs, hsh, hsz => by
+    unfold cfcIdeal
+    simp only
+    cases htt : top.t with
+    | mk d kids =>
+      rw [htt] at hs hsh hsz
+      unfold Summarized at hs
+      unfold shapeOK at hsh
+      simp only [Bool.and_eq_true] at hsh
+      unfold enumRefs
+      -- the scan over the remaining raw children `ks` = kids.drop k
+      have scan : ∀ (ks : List Tree) (fuel2 : Nat) (it : Iter) (pos : Length) (si k i0 : Nat),
+          ks.length < fuel2 → it.valid = true → it.parent = top.t → it.childIndex = k → it.si = si →
+          kids.drop k = ks → (∀ c r, ks = c :: r → it.pos = (if k > 0 then length_add pos c.data.padding else pos)) →
+          SummarizedL lang ks → shapeOKL (some d.symbol) ks = true → Tree.sizeList ks ≤ f →
+          (cfcScanIdeal lang gb gp (cfcIdeal lang gb gp f) (top :: rest) fuel2 it i0).map projE =
+            ((enumRefsKids lang d.productionId d.addr kids.length ks pos si k).findIdx? (fun r => goalAfter gb gp r.endLen)).map
+              (pickR (enumRefsKids lang d.productionId d.addr kids.length ks pos si k) i0) := by
+        intro ks
+        induction ks with
+        | nil =>
+          intro fuel2 it pos si k i0 hf hv hp hk hsi hdrop _ _ _ _
+          have hnone : it.parent.kids[it.childIndex]? = none := by
+            rw [hp, htt, hk]; simp only [kids_mk]
+            have : kids.length ≤ k := by
+              have := congrArg List.length hdrop; simp at this; omega
+            simp [this]
+          cases fuel2 with
+          | zero => omega
+          | succ f2 => simp [cfcScanIdeal, iterNext_none lang it hnone, enumRefsKids]
+        | cons c r ih =>
+          intro fuel2 it pos si k i0 hf hv hp hk hsi hdrop hpos hsk hshk hszk
+          obtain ⟨hck, hdrop'⟩ := getElem?_of_drop kids k c r hdrop
+          have hc' : it.parent.kids[it.childIndex]? = some c := by rw [hp, htt, hk]; exact hck
+          unfold SummarizedL at hsk
+          unfold shapeOKL at hshk
+          simp only [Bool.and_eq_true] at hshk
+          have hszc : c.size ≤ f := by unfold Tree.sizeList at hszk; omega
+          have hszr : Tree.sizeList r ≤ f := by unfold Tree.sizeList at hszk; omega
+          cases fuel2 with
+          | zero => simp at hf
+          | succ f2 =>
+          unfold cfcScanIdeal enumRefsKids
+          rw [iterNext_some lang it c hv hc']
+          simp only
+          have hpos' := hpos c r rfl
+          -- abbreviations
+          have hepos : (entryOf it c).pos = it.pos := rfl
+          have het : (entryOf it c).t = c := rfl
+          have heid : (entryOf it c).id = slotId d.addr kids.length k := by
+            simp only [entryOf, hp, htt, data_mk, kids_mk, hk]
+          rw [← hpos']
+          have hvis : visOf lang it c =
+              ({ t := c, alias := (if c.data.extra then 0 else lang.aliasAt d.productionId si), id := slotId d.addr kids.length k, start := it.pos } : NodeRef).relevant lang true := by
+            simp only [visOf, NodeRef.relevant, isRelevant, if_true, hp, htt, data_mk, hsi]
+            cases c.data.visible <;> cases c.data.extra <;> simp
+          -- the iterator after the step
+          have hnext := ih f2 (nextIter lang it c) (length_add it.pos c.data.size) (if c.data.extra then si else si + 1) (k + 1)
+          have hnv : (nextIter lang it c).valid = true := by simp [nextIter, hv]
+          have hnpos : ∀ c2 r2, r = c2 :: r2 → (nextIter lang it c).pos =
+              (if k + 1 > 0 then length_add (length_add it.pos c.data.size) c2.data.padding else length_add it.pos c.data.size) := by
+            intro c2 r2 hr
+            have h2 : kids[k + 1]? = some c2 := by
+              have := (getElem?_of_drop kids (k + 1) c2 r2 (by rw [hdrop', hr])).1
+              exact this
+            simp only [nextIter, hp, htt, kids_mk, hk, h2, Nat.succ_pos, if_true, gt_iff_lt]
+          have hrec := fun i1 => hnext i1 (by simp at hf ⊢; omega) hnv (by rw [nextIter_parent]; exact hp)
+            (by rw [nextIter_childIndex, hk]) (by rw [nextIter_si, hsi]) hdrop' hnpos hsk.2 hshk.2 hszr
+          generalize hnode : ({ t := c, alias := (if c.data.extra then 0 else lang.aliasAt d.productionId si), id := slotId d.addr kids.length k, start := it.pos } : NodeRef) = node at hvis ⊢
+          have hend : length_add (entryOf it c).pos (entryOf it c).t.data.size = node.endLen := by
+            rw [← hnode]; rfl
+          rw [hend]
+          by_cases hrel : node.relevant lang true = true
+          · -- a visible child
+            rw [hvis, hrel]
+            simp only [if_true, List.cons_append, List.nil_append, List.findIdx?_cons]
+            by_cases hg : goalAfter gb gp node.endLen = true
+            · have hg' : (decide (node.endLen.bytes > gb) && point_gt node.endLen.extent gp) = true := hg
+              simp only [hg', hg, if_true, Option.map_some]
+              simp only [projE, pickR, List.head?_cons, Option.map_some, List.getElem?_cons_zero, Nat.add_zero]
+              rw [← hnode]; simp [het, heid, hepos]
+            · have hg0 : goalAfter gb gp node.endLen = false := by simpa using hg
+              have hg' : (decide (node.endLen.bytes > gb) && point_gt node.endLen.extent gp) = false := hg0
+              simp only [hg', hg0, Bool.false_eq_true, if_false]
+              rw [hrec (i0 + 1)]
+              simp only [Option.map_map]
+              congr 1
+              funext i
+              simp only [Function.comp, pickR, List.getElem?_cons_succ]
+              congr 1
+              omega
+          · -- a hidden child
+            have hrel' : node.relevant lang true = false := by simpa using hrel
+            rw [hvis, hrel']
+            simp only [Bool.false_eq_true, if_false]
+            have hsc : Summarized lang c := hsk.1
+            have hshc : shapeOK (some d.symbol) c = true := hshk.1
+            have hvcc : vcc (entryOf it c).t = (enumRefs lang c it.pos).length := by
+              rw [het]; exact vcc_eq_refs lang c it.pos (some d.symbol) hsc hshc
+            have hwithin : ∀ x ∈ enumRefs lang c it.pos, lle x.endLen node.endLen := by
+              intro x hx
+              have := enumRefs_withinL lang c it.pos (sized_of_summarized lang c hsc) x hx
+              rw [← hnode]; exact this
+            have hskip : goalAfter gb gp node.endLen = false →
+                ∀ x ∈ enumRefs lang c it.pos, (fun r : NodeRef => goalAfter gb gp r.endLen) x = false := by
+              intro hg x hx
+              exact goalAfter_mono gb gp _ _ (hwithin x hx) hg
+            -- descending into the hidden child: the search one level down (fuel f)
+            have hinner := cfcIdeal_flat lang gb gp f (entryOf it c) (top :: rest) i0 (some d.symbol) hsc hshc hszc
+            rw [hepos, het] at hinner
+            by_cases hg : goalAfter gb gp node.endLen = true
+            · have hg' : (decide (node.endLen.bytes > gb) && point_gt node.endLen.extent gp) = true := hg
+              simp only [hg', if_true]
+              by_cases hv0 : vcc (entryOf it c).t > 0
+              · simp only [hv0, if_true]
+                cases hin : cfcIdeal lang gb gp f (entryOf it c :: top :: rest) i0 with
+                | some res =>
+                  rw [hin] at hinner
+                  simp only [Option.map_some] at hinner ⊢
+                  cases hfi : (enumRefs lang c it.pos).findIdx? (fun r => goalAfter gb gp r.endLen) with
+                  | none => rw [hfi] at hinner; simp at hinner
+                  | some i =>
+                    rw [hfi] at hinner
+                    simp only [Option.map_some, Option.some.injEq] at hinner
+                    obtain ⟨h1, h2⟩ := findIdx_append_some _ _ (enumRefsKids lang d.productionId d.addr kids.length r (length_add it.pos c.data.size) (if c.data.extra then si else si + 1) (k + 1)) i hfi
+                    rw [h1]
+                    simp only [Option.map_some, Option.some.injEq]
+                    rw [hinner]
+                    simp only [pickR, h2]
+                | none =>
+                  rw [hin] at hinner
+                  simp only [Option.map_none] at hinner
+                  have hfi : (enumRefs lang c it.pos).findIdx? (fun r => goalAfter gb gp r.endLen) = none := by
+                    cases hx : (enumRefs lang c it.pos).findIdx? (fun r => goalAfter gb gp r.endLen) with
+                    | none => rfl
+                    | some i => rw [hx] at hinner; simp at hinner
+                  simp only
+                  rw [hrec (i0 + vcc (entryOf it c).t), findIdx_append_none _ _ _ (findIdx_none_all _ _ hfi)]
+                  simp only [Option.map_map]
+                  congr 1
+                  funext i
+                  simp only [Function.comp, pickR, hvcc]
+                  rw [List.getElem?_append_right (by omega)]
+                  rw [Nat.add_sub_cancel, Nat.add_assoc, Nat.add_comm _ i]
+              · simp only [hv0, if_false]
+                have hnil : enumRefs lang c it.pos = [] := by
+                  apply List.eq_nil_of_length_eq_zero
+                  rw [← hvcc]; omega
+                rw [hrec i0, hnil]
+                simp
+            · have hg0 : goalAfter gb gp node.endLen = false := by simpa using hg
+              have hg' : (decide (node.endLen.bytes > gb) && point_gt node.endLen.extent gp) = false := hg0
+              simp only [hg', Bool.false_eq_true, if_false]
+              rw [hrec (i0 + vcc (entryOf it c).t), findIdx_append_none _ _ _ (hskip hg0)]
+              simp only [Option.map_map]
+              congr 1
+              funext i
+              simp only [Function.comp, pickR, hvcc]
+              rw [List.getElem?_append_right (by omega)]
+              rw [Nat.add_sub_cancel, Nat.add_assoc, Nat.add_comm _ i]
+      -- apply the scan to all children
+      cases hk0 : kids with
+      | nil =>
+        have hinv : iterNext lang (iterateChildren lang top rest.head?) = none :=
+          iterateChildren_invalid lang top rest.head? (by rw [htt]; simp [Tree.kids, hk0])
+        simp [cfcScanIdeal, hinv, enumRefsKids]
+      | cons k0 krest =>
+        have hne : top.t.kids.isEmpty = false := by rw [htt]; simp [Tree.kids, hk0]
+        have hit : (iterateChildren lang top rest.head?).valid = true := by unfold iterateChildren; simp [hne]
+        have hitp : (iterateChildren lang top rest.head?).pos = top.pos := by unfold iterateChildren; simp [hne]
+        have hitc : (iterateChildren lang top rest.head?).childIndex = 0 := by unfold iterateChildren; simp [hne]
+        have hits : (iterateChildren lang top rest.head?).si = 0 := by unfold iterateChildren; simp [hne]
+        have := scan kids (top.t.kids.length + 1) (iterateChildren lang top rest.head?) top.pos 0 0 idx
+          (by rw [htt]; simp [Tree.kids]) hit (iterateChildren_parent lang top rest.head?) hitc hits (by simp)
+          (by intro c r _; simp [hitp]) hs.2.2 hsh.2 (by unfold Tree.size at hsz; omega)
+        rw [← hk0]
+        simpa [htt, Tree.kids, Tree.data] using this
+
+/-! ## Part 3: on the judge's array `FT` -/
+
+theorem findIdx_map {α β : Type} (g : α → β) (p : β → Bool) : ∀ (l : List α), (l.map g).findIdx? p = l.findIdx? (fun x => p (g x))
+  | [] => rfl
+  | a :: l => by simp only [List.map_cons, List.findIdx?_cons, findIdx_map g p l]
+
+theorem findIdx_congr_mem {α : Type} (p q : α → Bool) : ∀ (l : List α), (∀ x ∈ l, p x = q x) → l.findIdx? p = l.findIdx? q
+  | [], _ => rfl
+  | a :: l, h => by
+    simp only [List.findIdx?_cons, h a (by simp), findIdx_congr_mem p q l (fun x hx => h x (by simp [hx]))]
+
+theorem findIdx_lt {α : Type} (p : α → Bool) : ∀ (l : List α) (i : Nat), l.findIdx? p = some i → i < l.length
+  | [], _, h => by simp at h
+  | a :: l, i, h => by
+    simp only [List.findIdx?_cons] at h
+    by_cases ha : p a = true
+    · simp only [ha, if_true, Option.some.injEq] at h; subst h; simp
+    · have ha' : p a = false := by simpa using ha
+      simp only [ha', Bool.false_eq_true, if_false, Option.map_eq_some_iff] at h
+      obtain ⟨j, hj, rfl⟩ := h
+      have := findIdx_lt p l j hj
+      simp; omega
+
+/-- the end position `flatten` records for a child of entry `k` is the end of its `TSNode` -/
+theorem ft_kids_stop (lang : Lang) (ft : FT) (info : VInfo) (kids : List VTree) (k : Nat) (par : Option Nat) (dep : Nat)
+    (hg : GoodAt ft.toList (.mk info kids) k par dep) (hq : QQ lang (.mk info kids)) :
+    ∀ j ∈ ft.kidsOf k, (ft.node j).info.stop = (refOf (ft.node j).info).endLen := by
+  have hK := ft_kid_info ft info kids k par dep hg
+  intro j hj
+  obtain ⟨m, hm⟩ := List.mem_iff_getElem?.mp hj
+  have h1 := hK m
+  rw [hm] at h1
+  cases hc : kids[m]? with
+  | none => rw [hc] at h1; simp at h1
+  | some c =>
+    rw [hc] at h1
+    simp only [Option.map_some, Option.some.injEq] at h1
+    obtain ⟨⟨_, _, hstop, _⟩, _, _⟩ := qq_kids lang info kids hq c (List.mem_of_getElem? hc)
+    simp only [h1, refOf, NodeRef.endLen, hstop]
+
+/-- **cursor_first_child_for_ft_spec.**  The evaluated cross-check `cfcIdeal = FT.cursorFirstChildFor` as a theorem,
+in the form the driver evaluates it: for EVERY entry `k` of the preorder array of `flatten` (root summarized and
+parser-shaped), every goal byte / point and every cursor stack whose top entry is that node (same raw subtree, same
+start position), the plain search `cfcIdeal` returns the index and the node id that `FT.cursorFirstChildFor k`
+designates — nothing iff nothing.  With `cursor_first_child_for_spec` (port = `cfcIdeal` without a dead end):
+`ts_tree_cursor_goto_first_child_for_byte/point` = the first child of the ordered tree ending after the goal. -/
+theorem cursor_first_child_for_ft_spec (lang : Lang) (root : Tree) (rootId : Nat) (ps : Option Nat) (fuel k gb : Nat) (gp : TSPoint)
+    (hs : Summarized lang root) (hsh : shapeOK ps root = true) :
+    let ft : FT := flatOf (flatten lang root rootId)
+    k < ft.size → ∀ (top : Entry) (rest : List Entry), top.t = (ft.node k).info.raw → top.pos = (ft.node k).info.start →
+    top.t.size ≤ fuel →
+    (cfcIdeal lang gb gp fuel (top :: rest) 0).map (fun r => (r.1, r.2.head?.map (·.id))) =
+      (ft.cursorFirstChildFor k gb gp).map (fun ij => (ij.1, some (ft.node ij.2).info.id)) := by
+  intro ft hk top rest ht hp hf
+  obtain ⟨info, kids, par, dep, hg, hq⟩ := ft_all_good lang root rootId ps hs hsh k hk
+  have hnode := good_node ft info kids k par dep hg
+  have hinfo : (ft.node k).info = info := by rw [hnode]
+  rw [hinfo] at ht hp
+  obtain ⟨hrefs, _⟩ := ft_kids_refs lang ft info kids k par dep hg hq
+  have hstop := ft_kids_stop lang ft info kids k par dep hg hq
+  obtain ⟨_, hsv, psv, hshv⟩ := hq
+  simp only [VTree.info] at hsv hshv
+  have hflat := cfcIdeal_flat lang gb gp fuel top rest 0 psv (by rw [ht]; exact hsv) (by rw [ht]; exact hshv) hf
+  rw [ht, hp, ← hrefs] at hflat
+  -- project both sides to (index, id)
+  have hproj := congrArg (Option.map fun (x : Nat × Option (Tree × Nat × Length)) => (x.1, x.2.map (·.2.1))) hflat
+  simp only [Option.map_map] at hproj
+  have hl : (fun r : Nat × List Entry => (r.1, r.2.head?.map (·.id))) =
+      (fun (x : Nat × Option (Tree × Nat × Length)) => (x.1, x.2.map (·.2.1))) ∘ projE := by
+    funext r; simp only [projE, Function.comp, Option.map_map]; rfl
+  rw [hl, hproj]
+  -- the right-hand side
+  unfold FT.cursorFirstChildFor
+  simp only
+  rw [findIdx_map]
+  have hcongr : (ft.kidsOf k).findIdx? (fun j => goalAfter gb gp (refOf (ft.node j).info).endLen) =
+      (ft.kidsOf k).findIdx? (fun j => decide (ft.eb j > gb) && point_gt (ft.ep j) gp) := by
+    apply findIdx_congr_mem
+    intro j hj
+    simp only [goalAfter, FT.eb, FT.ep, hstop j hj]
+  rw [hcongr]
+  cases hfi : (ft.kidsOf k).findIdx? (fun j => decide (ft.eb j > gb) && point_gt (ft.ep j) gp) with
+  | none => simp
+  | some i =>
+    have hlt := findIdx_lt _ _ i hfi
+    simp only [Option.map_some, Function.comp, pickR, Nat.zero_add, List.getElem?_map, Option.some.injEq, Prod.mk.injEq, true_and]
+    rw [List.getElem?_eq_getElem hlt]
+    simp only [Option.map_some, refOf]
+    congr 2
+    simp [List.getD, List.getElem?_eq_getElem hlt]
+
+/-! ## Non-vacuity: `cwRoot` = rule[tok, _hidden[tok, tok], tok] (4 visible children of one byte each) -/
+
+def cffTop : Entry := { t := cwRoot, id := 1, pos := length_zero }
+
+example : (enumRefs C02.demoLang cwRoot length_zero).map (·.endLen.bytes) = [1, 2, 3, 4] := by decide
+/-- goal byte 1: the first child ending after byte 1 is child 1 — the first token INSIDE the hidden node -/
+example : (cfcIdeal C02.demoLang 1 POINT_ZERO 7 [cffTop] 0).map (fun r => (r.1, r.2.length)) = some (1, 3) := by decide
+example : ((enumRefs C02.demoLang cwRoot length_zero).findIdx? (fun r => goalAfter 1 POINT_ZERO r.endLen)) = some 1 := by decide
+
 end TsVerif.C06
